@@ -122,9 +122,13 @@ theorem dataItems_take_succ (c : Cfg) (h : List Nat) (i w : Nat) (hi : h[i]? = s
   simp only [Option.toList]
   exact dataItems_snoc c (h.take i) w
 
+/-- Once StopIteration has been raised everything has been delivered. -/
+def FinI (c : Cfg) (s : State) (g : Ghost) : Prop :=
+  Obs.stop ∈ s.obs → s.rcvdIdx = s.sendIdx ∧ dataItems c (g.h.take s.rcvdIdx) = Ref.interleave c.shards
+
 /-- Working invariant of the main process while the iterator is active. -/
 def WI (c : Cfg) (s : State) (g : Ghost) : Prop :=
-  MidI c s g none ∧ ObsRel (dataItems c (g.h.take s.rcvdIdx)) (taskObs s.obs)
+  MidI c s g none ∧ ObsRel (dataItems c (g.h.take s.rcvdIdx)) (taskObs s.obs) ∧ LiveI c s g ∧ FinI c s g
 
 /-- Everything but `_task_info` and `_rcvd_idx`. -/
 structure SameSkip (s s' : State) : Prop where
@@ -151,15 +155,44 @@ theorem SameSkip.refl (s : State) : SameSkip s s := by constructor <;> rfl
 theorem getElem?_none_toList {α : Type} (l : List α) (i : Nat) (h : l.length ≤ i) : (l[i]?).toList = [] := by
   rw [List.getElem?_eq_none h]; rfl
 
+/-- Witnesses survive the consumption of a task that is not itself a witness. -/
+theorem LiveI_pop (c : Cfg) (s s' : State) (g : Ghost) (w : Nat) (h : LiveI c s g)
+    (e1 : s'.status = s.status) (e2 : s'.rcvdIdx = s.rcvdIdx + 1) (hw : g.h[s.rcvdIdx]? = some w)
+    (hnw : ¬ ((g.h.take s.rcvdIdx).count w < bOf c w ∨
+      ((g.h.take s.rcvdIdx).count w = bOf c w ∧ g.arr w ≤ bOf c w))) : LiveI c s' g := by
+  rintro ⟨v, hv, hvu⟩
+  have hvu' : up s v = true := by simpa [up, e1] using hvu
+  obtain ⟨i, hi, w', hw', hc⟩ := h ⟨v, hv, hvu'⟩
+  refine ⟨i, ?_, w', hw', hc⟩
+  rw [e2]
+  rcases Nat.lt_or_ge s.rcvdIdx i with hh | hh
+  · exact hh
+  · have : i = s.rcvdIdx := by omega
+    subst this
+    rw [hw] at hw'; cases hw'
+    exact absurd hc hnw
+
+theorem LiveI_of_eq (c : Cfg) (s s' : State) (g : Ghost) (h : LiveI c s g)
+    (e1 : s'.status = s.status) (e2 : s'.rcvdIdx = s.rcvdIdx) : LiveI c s' g := by
+  rintro ⟨v, hv, hvu⟩
+  have hvu' : up s v = true := by simpa [up, e1] using hvu
+  obtain ⟨i, hi, rest⟩ := h ⟨v, hv, hvu'⟩
+  exact ⟨i, by rw [e2]; exact hi, rest⟩
+
+/-- `skip` stops at a task that has its result or whose owner is still expected to work. -/
+def HeadKept (s : State) : Prop :=
+  s.rcvdIdx < s.sendIdx → ∃ e l, s.info = e :: l ∧ (e.res.isSome = true ∨ up s e.w = true)
+
 theorem skip_WI (c : Cfg) (s : State) (g : Ghost) (n : Nat) (h : WI c s g) :
-    WI c (skip s n) g ∧ SameSkip s (skip s n) := by
+    WI c (skip s n) g ∧ SameSkip s (skip s n) ∧ (s.sendIdx - s.rcvdIdx ≤ n → HeadKept (skip s n)) ∧
+      s.rcvdIdx ≤ (skip s n).rcvdIdx := by
   induction n generalizing s with
-  | zero => exact ⟨h, SameSkip.refl s⟩
+  | zero => exact ⟨h, SameSkip.refl s, fun hn => (by intro hlt; simp only [skip] at hlt; omega), Nat.le_refl _⟩
   | succ n ih =>
     unfold skip
     by_cases hlt : s.rcvdIdx < s.sendIdx
     · simp only [hlt, if_true]
-      obtain ⟨hm, ho⟩ := h
+      obtain ⟨hm, ho, hl, hfin⟩ := h
       have hlen := hm.len
       obtain ⟨e, l, hi⟩ : ∃ e l, s.info = e :: l := by
         cases hi : s.info with
@@ -172,7 +205,8 @@ theorem skip_WI (c : Cfg) (s : State) (g : Ghost) (n : Nat) (h : WI c s g) :
       simp only
       by_cases hkeep : (e.res.isSome || up s e.w) = true
       · simp only [hkeep, if_true]
-        exact ⟨⟨hm, ho⟩, SameSkip.refl s⟩
+        refine ⟨⟨hm, ho, hl, hfin⟩, SameSkip.refl s, fun _ _ => ⟨e, l, hi, ?_⟩, Nat.le_refl _⟩
+        simpa using hkeep
       · simp only [hkeep, Bool.false_eq_true, if_false]
         simp only [Bool.or_eq_true, not_or, Bool.not_eq_true, Option.isSome_eq_false_iff,
           Option.isNone_iff_eq_none] at hkeep
@@ -189,13 +223,15 @@ theorem skip_WI (c : Cfg) (s : State) (g : Ghost) (n : Nat) (h : WI c s g) :
         obtain ⟨hm', _⟩ := MidI_pop c s g none e l hm (Or.inl rfl) hi (Or.inr hdead)
         rw [eraseInfo_headX _ e l hidx]
         have hW' : WI c { s with info := l, rcvdIdx := s.rcvdIdx + 1 } g := by
-          refine ⟨hm', ?_⟩
-          simp only
-          rw [dataItems_take_succ c g.h _ e.w h2, getElem?_none_toList _ _ (by unfold bOf at hdead; omega),
-            List.append_nil]
-          exact ho
-        obtain ⟨r1, r2⟩ := ih _ hW'
-        refine ⟨r1, ?_⟩
+          refine ⟨hm', ?_, LiveI_pop c s _ g e.w hl rfl rfl h2 (by omega), ?_⟩
+          · simp only
+            rw [dataItems_take_succ c g.h _ e.w h2, getElem?_none_toList _ _ (by unfold bOf at hdead; omega),
+              List.append_nil]
+            exact ho
+          · intro hst
+            have := (hfin hst).1; omega
+        obtain ⟨r1, r2, r3, r4⟩ := ih _ hW'
+        refine ⟨r1, ?_, fun hn => r3 (by simp only; omega), by simp only at r4; omega⟩
         constructor
         · exact r2.sendIdx
         · exact r2.status
@@ -215,17 +251,18 @@ theorem skip_WI (c : Cfg) (s : State) (g : Ghost) (n : Nat) (h : WI c s g) :
         · exact r2.phase
         · exact r2.obs
     · simp only [hlt, if_false]
-      exact ⟨h, SameSkip.refl s⟩
+      exact ⟨h, SameSkip.refl s, fun _ hh => absurd hh hlt, Nat.le_refl _⟩
 
 /-- The dispatch history is consistent with the round robin: its live pairs are a prefix of the epoch. -/
 def Pref (c : Cfg) (g : Ghost) : Prop := ∃ ρ a, livePairs c g.h ++ liveFrom c ρ a = liveFrom c 0 0
 
-/-- The iterable, in-order safety invariant. -/
+/-- The iterable, in-order invariant. -/
 structure InvI (c : Cfg) (s : State) : Prop where
   ph : ∀ k, s.phase ≠ .resuming k
-  down : s.shutdown = true → s.rcvdIdx = s.sendIdx ∧ s.phase = .idle
-  core : ∃ g, ObsRel (dataItems c (g.h.take s.rcvdIdx)) (taskObs s.obs) ∧ Pref c g ∧
-    (s.shutdown = false → MidI c s g none)
+  down : s.shutdown = true → s.rcvdIdx = s.sendIdx ∧ s.phase = .idle ∧ Obs.stop ∈ s.obs
+  core : ∃ g, ObsRel (dataItems c (g.h.take s.rcvdIdx)) (taskObs s.obs) ∧ Pref c g ∧ FinI c s g ∧
+    (s.shutdown = false → MidI c s g none ∧ LiveI c s g)
+  wait : s.phase = .waiting → ∃ e l, s.info = e :: l ∧ e.res = none ∧ up s e.w = true
 
 theorem processData_frame (c : Cfg) (s : State) (r : Res) :
     (processData c s r).1.rcvdIdx = s.rcvdIdx ∧ (processData c s r).1.phase = s.phase ∧
@@ -246,113 +283,120 @@ theorem take_of_prefix (h h' : List Nat) (n : Nat) (hn : n ≤ h.length) (hh : h
 /-- `_process_data` in an active iterable state (the task has already been popped). -/
 theorem processData_MidI (c : Cfg) (s : State) (g : Ghost) (r : Res) (hit : c.iterable = true)
     (hio : c.inOrder = true) (h : MidI c s g none) :
-    ∃ g', MidI c (processData c s r).1 g' none ∧ g'.h.take s.rcvdIdx = g.h.take s.rcvdIdx := by
+    ∃ g', MidI c (processData c s r).1 g' none ∧ g'.h.take s.rcvdIdx = g.h.take s.rcvdIdx ∧
+      LiveI c (processData c s r).1 g' := by
   have h0 : MidI c { s with numTasks := s.numTasks.modify r.w (· - 1) } g none :=
     MidI_of_eq c s _ g none h rfl rfl rfl rfl rfl rfl rfl
-  obtain ⟨g', hg', _, _, hh⟩ := MidI_tryPut c _ g none hit hio h0
+  obtain ⟨g', hg', _, _, hh, hl⟩ := MidI_tryPut c _ g none hit hio h0
   have hn : s.rcvdIdx ≤ g.h.length := by rw [h.hlen]; have := h.len; omega
-  refine ⟨g', ?_, take_of_prefix g.h g'.h _ hn hh⟩
-  unfold processData
-  split
-  · have hp := yieldItem_sameProto c (tryPut c { s with numTasks := s.numTasks.modify r.w (· - 1) }) r ‹_›
-    exact MidI_of_eq c _ _ g' none hg' hp.sendIdx hp.cyc hp.status hp.rcvdIdx hp.info hp.workers hp.resQ
-  · exact hg'
+  have hc := tryPut_sameCore c { s with numTasks := s.numTasks.modify r.w (· - 1) }
+  refine ⟨g', ?_, take_of_prefix g.h g'.h _ hn hh, ?_⟩
+  · unfold processData
+    split
+    · have hp := yieldItem_sameProto c (tryPut c { s with numTasks := s.numTasks.modify r.w (· - 1) }) r ‹_›
+      exact MidI_of_eq c _ _ g' none hg' hp.sendIdx hp.cyc hp.status hp.rcvdIdx hp.info hp.workers hp.resQ
+    · exact hg'
+  · unfold processData
+    split
+    · have hp := yieldItem_sameProto c (tryPut c { s with numTasks := s.numTasks.modify r.w (· - 1) }) r ‹_›
+      exact LiveI_of_eq c _ _ g' hl hp.status hp.rcvdIdx
+    · exact hl
 
 /-- Pop + process of a data task: the invariant after `next()` returns with its outcome. -/
 theorem procI (c : Cfg) (s : State) (g : Ghost) (r : Res) (it : Item) (D : List Item) (hit : c.iterable = true)
     (hio : c.inOrder = true) (h : MidI c s g none) (hsd : s.shutdown = false) (hph : ∀ k, s.phase ≠ .resuming k)
     (hD : dataItems c (g.h.take s.rcvdIdx) = D ++ [it]) (ho : ObsRel D (taskObs s.obs))
-    (hk : r.kind = kindOf it) :
+    (hk : r.kind = kindOf it) (hns : Obs.stop ∉ s.obs) :
     InvI c (finish ((processData c s r).1, some (processData c s r).2)) := by
-  obtain ⟨g', hg', htk⟩ := processData_MidI c s g r hit hio h
+  obtain ⟨g', hg', htk, hl'⟩ := processData_MidI c s g r hit hio h
   obtain ⟨f1, f2, f3⟩ := processData_frame c s r
   have fo := processData_obs c s r
   have hobs := ObsOk_kind it r hk c s
-  generalize processData c s r = p at hg' f1 f2 f3 fo hobs
+  generalize processData c s r = p at hg' f1 f2 f3 fo hobs hl'
   obtain ⟨s', o⟩ := p
-  simp only at hg' f1 f2 f3 fo hobs
-  have hto : taskObs [o] = [o] := by
+  simp only at hg' f1 f2 f3 fo hobs hl'
+  have hto : taskObs [o] = [o] ∧ o ≠ .stop := by
     cases it with
     | ok b => rcases hobs with rfl | rfl <;> simp [taskObs]
     | err => cases hobs; simp [taskObs]
   simp only [finish]
-  refine ⟨(by intro k; simp), (by intro hf; simp only [f3, hsd] at hf; cases hf), g', ?_, ⟨_, _, hg'.live⟩, fun _ => ?_⟩
-  · simp only [f1, fo, taskObs_append, hto, htk, hD]
+  refine ⟨(by intro k; simp), (by intro hf; simp only [f3, hsd] at hf; cases hf), ⟨g', ?_, ⟨_, _, hg'.live⟩, ?_,
+    fun _ => ⟨?_, ?_⟩⟩, (by intro hf; cases hf)⟩
+  · simp only [f1, fo, taskObs_append, hto.1, htk, hD]
     exact ObsRel_snoc _ _ _ _ ho hobs
+  · intro hst
+    simp only [fo, List.mem_append, List.mem_singleton] at hst
+    rcases hst with hst | hst
+    · exact absurd hst hns
+    · exact absurd hst.symm hto.2
   · exact MidI_of_eq c _ _ g' none hg' rfl rfl rfl rfl rfl rfl rfl
+  · exact LiveI_of_eq c _ _ g' hl' rfl rfl
 
 theorem InvI_of_WI (c : Cfg) (s : State) (g : Ghost) (h : WI c s g) (hph : ∀ k, s.phase ≠ .resuming k)
-    (hsd : s.shutdown = false) : InvI c s :=
-  ⟨hph, fun hf => (by rw [hsd] at hf; cases hf), g, h.2, ⟨_, _, h.1.live⟩, fun _ => h.1⟩
+    (hsd : s.shutdown = false)
+    (hw : s.phase = .waiting → ∃ e l, s.info = e :: l ∧ e.res = none ∧ up s e.w = true) : InvI c s :=
+  ⟨hph, fun hf => (by rw [hsd] at hf; cases hf), ⟨g, h.2.1, ⟨_, _, h.1.live⟩, h.2.2.2, fun _ => ⟨h.1, h.2.2.1⟩⟩, hw⟩
 
-/-- The `while True` loop of `_next_data`, for any fuel. -/
-theorem loop_invI (c : Cfg) (n : Nat) (s : State) (g : Ghost) (hit : c.iterable = true) (hio : c.inOrder = true)
-    (hW : WI c s g) (hsd : s.shutdown = false) (hph : ∀ k, s.phase ≠ .resuming k) :
-    InvI c (finish (loop c n s)) := by
-  induction n generalizing s with
-  | zero =>
-    simp only [loop, finish]
-    exact InvI_of_WI c _ g ⟨MidI_of_eq c s _ g none hW.1 rfl rfl rfl rfl rfl rfl rfl, hW.2⟩ (by intro k; simp) hsd
-  | succ n ih =>
-    unfold loop
-    obtain ⟨hW2, hf⟩ := skip_WI c s g (s.sendIdx - s.rcvdIdx) hW
-    generalize skip s (s.sendIdx - s.rcvdIdx) = s2 at hW2 hf
-    simp only
-    have hsd2 : s2.shutdown = false := by rw [hf.shutdown]; exact hsd
-    have hph2 : ∀ k, s2.phase ≠ .resuming k := by rw [hf.phase]; exact hph
-    obtain ⟨hm2, ho2⟩ := hW2
-    by_cases hle : s2.sendIdx ≤ s2.rcvdIdx
-    · simp only [hle, if_true, finish]
-      by_cases hp : c.persistent = true
-      · simp only [hp, if_true]
-        exact InvI_of_WI c _ g ⟨MidI_of_eq c s2 _ g none hm2 rfl rfl rfl rfl rfl rfl rfl,
-          by simpa [taskObs_append, taskObs] using ho2⟩ (by intro k; simp) hsd2
-      · have hp' : c.persistent = false := by simpa using hp
-        simp only [hp', Bool.false_eq_true, if_false]
-        have hsm := shutdownWorkers_sameMain c s2
-        refine ⟨(by intro k; simp), fun _ => ?_, g, ?_, ⟨_, _, hm2.live⟩, fun hh => ?_⟩
-        · simp only [hsm.rcvdIdx, hsm.sendIdx]
-          have := hm2.len
-          exact ⟨by omega, trivial⟩
-        · simp only [hsm.rcvdIdx, hsm.obs, taskObs_append, taskObs, List.append_nil]; exact ho2
-        · simp only [shutdownWorkers_shutdown] at hh; cases hh
-    · simp only [hle, if_false]
-      have hlen := hm2.len
-      obtain ⟨e, l, hi⟩ : ∃ e l, s2.info = e :: l := by
-        cases hi : s2.info with
-        | nil => simp [hi] at hlen; omega
-        | cons e l => exact ⟨e, l, rfl⟩
-      have hinfo := hm2.info
-      rw [hi] at hinfo
-      have hidx := InfoI_idxFrom c g none _ _ hinfo
-      have hlk : lookupInfo s2.info s2.rcvdIdx = some e := by rw [hi]; exact lookupInfo_headX _ e l hidx
-      have her : eraseInfo s2.info s2.rcvdIdx = l := by rw [hi]; exact eraseInfo_headX _ e l hidx
-      rw [hlk]
-      simp only
-      obtain ⟨h1, h2, h3, h4, h5⟩ := hinfo
-      cases hres : e.res with
-      | none =>
-        simp only [finish]
-        exact InvI_of_WI c _ g ⟨MidI_of_eq c s2 _ g none hm2 rfl rfl rfl rfl rfl rfl rfl, ho2⟩ (by intro k; simp) hsd2
-      | some r =>
-        simp only [her]
-        obtain ⟨⟨_, _, _, hkind⟩, _, hseq⟩ := h3 r hres
-        obtain ⟨hm3, _⟩ := MidI_pop c s2 g none e l hm2 (Or.inl rfl) hi (Or.inl hseq)
-        have hD := dataItems_take_succ c g.h s2.rcvdIdx e.w h2
-        by_cases hn : r.kind = .notice
-        · simp only [hn, if_true]
-          rw [hn] at hkind
-          have hj := kindAt_notice c _ _ hkind
-          have hnil : ((c.shards.getD e.w [])[(g.h.take s2.rcvdIdx).count e.w]?).toList = [] :=
-            getElem?_none_toList _ _ (by unfold bOf at hj; omega)
-          rw [hnil, List.append_nil] at hD
-          refine ih _ ⟨MidI_of_eq c _ _ g none hm3 rfl rfl rfl rfl rfl rfl rfl, ?_⟩ hsd2 hph2
-          simp only [hD]; exact ho2
-        · simp only [hn, if_false]
-          obtain ⟨it, hit', hk, _⟩ := kindAt_data c _ _ _ hkind hn
-          rw [hit'] at hD
-          simp only [Option.toList] at hD
-          exact procI c _ g r it _ hit hio hm3 hsd2 hph2 hD ho2 hk
+theorem WI_of_eq (c : Cfg) (s s' : State) (g : Ghost) (h : WI c s g)
+    (e1 : s'.sendIdx = s.sendIdx) (e2 : s'.cyc = s.cyc) (e3 : s'.status = s.status) (e4 : s'.rcvdIdx = s.rcvdIdx)
+    (e5 : s'.info = s.info) (e6 : s'.workers = s.workers) (e7 : s'.resQ = s.resQ) (e8 : s'.obs = s.obs) :
+    WI c s' g := by
+  refine ⟨MidI_of_eq c s s' g none h.1 e1 e2 e3 e4 e5 e6 e7, by rw [e4, e8]; exact h.2.1,
+    LiveI_of_eq c s s' g h.2.2.1 e3 e4, ?_⟩
+  unfold FinI
+  rw [e8, e4, e1]; exact h.2.2.2
+
+theorem liveFrom_nil (c : Cfg) (ρ a : Nat) (h : ∀ w, w < c.W → bOf c w < turns ρ a w) : liveFrom c ρ a = [] := by
+  have hr : ∀ k a', ρ ≤ k → (k = ρ → a ≤ a') → roundFrom c k a' = [] := by
+    intro k a' hk hka
+    unfold roundFrom
+    rw [List.map_eq_nil_iff, List.filter_eq_nil_iff]
+    intro w hw
+    rw [List.mem_range'_1] at hw
+    have hwW : w < c.W := by omega
+    have := h w hwW
+    unfold turns at this
+    simp only [decide_eq_true_eq]
+    by_cases hkr : k = ρ
+    · have := hka hkr
+      have hna : ¬ w < a := by omega
+      simp only [hna, if_false] at *
+      omega
+    · split at this <;> omega
+  unfold liveFrom
+  rw [hr ρ a (Nat.le_refl _) (fun _ => Nat.le_refl _), List.nil_append]
+  generalize maxB c - ρ = n
+  have : ∀ k, ρ < k → laterRounds c k n = [] := by
+    induction n with
+    | zero => intro k _; rfl
+    | succ n ih =>
+      intro k hk
+      rw [laterRounds, hr k 0 (by omega) (fun hh => by omega), ih (k + 1) (by omega)]
+      rfl
+  exact this (ρ + 1) (by omega)
+
+/-- When `_next_data` finds nothing left, every worker has retired and everything has been dispatched
+and consumed. -/
+theorem fin_of_stop (c : Cfg) (s : State) (g : Ghost) (hv : c.shards.length = c.W) (hm : MidI c s g none) (hl : LiveI c s g)
+    (hle : s.sendIdx ≤ s.rcvdIdx) :
+    s.rcvdIdx = s.sendIdx ∧ dataItems c (g.h.take s.rcvdIdx) = Ref.interleave c.shards := by
+  have hlen := hm.len
+  have heq : s.rcvdIdx = s.sendIdx := by omega
+  have hdown : ∀ w, w < c.W → up s w = false := by
+    intro w hw
+    rcases Bool.eq_false_or_eq_true (up s w) with hu | hu
+    · obtain ⟨i, hi, w', hw', _⟩ := hl ⟨w, hw, hu⟩
+      have := (List.getElem?_eq_some_iff.mp hw').1
+      rw [hm.hlen] at this; omega
+    · exact hu
+  have hnil : liveFrom c g.rho s.cyc = [] := by
+    apply liveFrom_nil
+    intro w hw
+    have := hm.ptrDn w hw (hdown w hw); omega
+  have hlive := hm.live
+  rw [hnil, List.append_nil] at hlive
+  refine ⟨heq, ?_⟩
+  rw [heq, ← hm.hlen, List.take_length, dataItems_eq_itemsOf, hlive, itemsOf_liveFrom_zero c hv]
 
 theorem InfoI_setRes (c : Cfg) (g : Ghost) (x i u : Nat) (l : List Info) (r : Res)
     (h : InfoI c g (some x) i l) (hx : g.h[x]? = some u)
@@ -425,13 +469,103 @@ theorem onArrival_frame (c : Cfg) (s : State) (r : Res) :
       (split <;> rfl)
   · exact ⟨rfl, rfl, rfl, rfl⟩
 
+
+/-- The `while True` loop of `_next_data`, for any fuel. -/
+theorem loop_invI (c : Cfg) (n : Nat) (s : State) (g : Ghost) (hv : c.shards.length = c.W)
+    (hit : c.iterable = true) (hio : c.inOrder = true)
+    (hW : WI c s g) (hsd : s.shutdown = false) (hph : ∀ k, s.phase ≠ .resuming k)
+    (hfuel : s.sendIdx - s.rcvdIdx < n) :
+    InvI c (finish (loop c n s)) := by
+  induction n generalizing s with
+  | zero => omega
+  | succ n ih =>
+    unfold loop
+    obtain ⟨hW2, hf, hk, hrcv⟩ := skip_WI c s g (s.sendIdx - s.rcvdIdx) hW
+    have hk2 := hk (Nat.le_refl _)
+    generalize skip s (s.sendIdx - s.rcvdIdx) = s2 at hW2 hf hk2 hrcv
+    simp only
+    have hsd2 : s2.shutdown = false := by rw [hf.shutdown]; exact hsd
+    have hph2 : ∀ k, s2.phase ≠ .resuming k := by rw [hf.phase]; exact hph
+    obtain ⟨hm2, ho2, hl2, hfin2⟩ := hW2
+    by_cases hle : s2.sendIdx ≤ s2.rcvdIdx
+    · simp only [hle, if_true, finish]
+      have hfin := fin_of_stop c s2 g hv hm2 hl2 hle
+      by_cases hp : c.persistent = true
+      · simp only [hp, if_true]
+        refine ⟨(by intro k; simp), fun hf' => (by rw [hsd2] at hf'; cases hf'), ⟨g,
+          by simpa [taskObs_append, taskObs] using ho2, ⟨_, _, hm2.live⟩, fun _ => hfin, fun _ => ⟨?_, ?_⟩⟩,
+          (by intro hf'; cases hf')⟩
+        · exact MidI_of_eq c s2 _ g none hm2 rfl rfl rfl rfl rfl rfl rfl
+        · exact LiveI_of_eq c s2 _ g hl2 rfl rfl
+      · have hp' : c.persistent = false := by simpa using hp
+        simp only [hp', Bool.false_eq_true, if_false]
+        have hsm := shutdownWorkers_sameMain c s2
+        refine ⟨(by intro k; simp), fun _ => ?_, ⟨g, ?_, ⟨_, _, hm2.live⟩, ?_, fun hh => ?_⟩,
+          (by intro hf'; cases hf')⟩
+        · simp only [hsm.rcvdIdx, hsm.sendIdx, hsm.obs]
+          exact ⟨hfin.1, trivial, by simp⟩
+        · simp only [hsm.rcvdIdx, hsm.obs, taskObs_append, taskObs, List.append_nil]; exact ho2
+        · intro _; simp only [hsm.rcvdIdx, hsm.sendIdx]; exact hfin
+        · simp only [shutdownWorkers_shutdown] at hh; cases hh
+    · simp only [hle, if_false]
+      have hns : Obs.stop ∉ s2.obs := fun hst => hle (by rw [(hfin2 hst).1]; exact Nat.le_refl _)
+      have hlen := hm2.len
+      obtain ⟨e, l, hi⟩ : ∃ e l, s2.info = e :: l := by
+        cases hi : s2.info with
+        | nil => simp [hi] at hlen; omega
+        | cons e l => exact ⟨e, l, rfl⟩
+      have hinfo := hm2.info
+      rw [hi] at hinfo
+      have hidx := InfoI_idxFrom c g none _ _ hinfo
+      have hlk : lookupInfo s2.info s2.rcvdIdx = some e := by rw [hi]; exact lookupInfo_headX _ e l hidx
+      have her : eraseInfo s2.info s2.rcvdIdx = l := by rw [hi]; exact eraseInfo_headX _ e l hidx
+      rw [hlk]
+      simp only
+      obtain ⟨h1, h2, h3, h4, h5⟩ := hinfo
+      cases hres : e.res with
+      | none =>
+        simp only [finish]
+        refine InvI_of_WI c _ g (WI_of_eq c s2 _ g ⟨hm2, ho2, hl2, hfin2⟩ rfl rfl rfl rfl rfl rfl rfl rfl)
+          (by intro k; simp) hsd2 (fun _ => ⟨e, l, hi, hres, ?_⟩)
+        obtain ⟨e', l', hi', hkept⟩ := hk2 (by omega)
+        rw [hi] at hi'
+        cases hi'
+        rcases hkept with hkept | hkept
+        · rw [hres] at hkept; cases hkept
+        · exact hkept
+      | some r =>
+        simp only [her]
+        obtain ⟨⟨_, _, _, hkind⟩, _, hseq⟩ := h3 r hres
+        obtain ⟨hm3, _⟩ := MidI_pop c s2 g none e l hm2 (Or.inl rfl) hi (Or.inl hseq)
+        have hD := dataItems_take_succ c g.h s2.rcvdIdx e.w h2
+        by_cases hn : r.kind = .notice
+        · simp only [hn, if_true]
+          rw [hn] at hkind
+          have hj := kindAt_notice c _ _ hkind
+          have hnil : ((c.shards.getD e.w [])[(g.h.take s2.rcvdIdx).count e.w]?).toList = [] :=
+            getElem?_none_toList _ _ (by unfold bOf at hj; omega)
+          rw [hnil, List.append_nil] at hD
+          refine ih _ ⟨MidI_of_eq c _ _ g none hm3 rfl rfl rfl rfl rfl rfl rfl, ?_, ?_, ?_⟩ hsd2 hph2 ?_
+          · simp only [hD]; exact ho2
+          · exact LiveI_pop c s2 _ g e.w hl2 rfl rfl h2 (by omega)
+          · intro hst; exact absurd hst hns
+          · simp only
+            have := hf.sendIdx
+            omega
+        · simp only [hn, if_false]
+          obtain ⟨it, hit', hk, _⟩ := kindAt_data c _ _ _ hkind hn
+          rw [hit'] at hD
+          simp only [Option.toList] at hD
+          exact procI c _ g r it _ hit hio hm3 hsd2 hph2 hD ho2 hk hns
+
 /-- Arrival of the head of the result queue, through the status update and the extra dispatch. -/
 theorem onArrival_I (c : Cfg) (s : State) (g : Ghost) (r : Res) (rest : List Res) (hit : c.iterable = true)
-    (hio : c.inOrder = true) (h : MidI c s g none) (hq : s.resQ = r :: rest) :
+    (hio : c.inOrder = true) (h : MidI c s g none) (hl : LiveI c s g) (hq : s.resQ = r :: rest) :
     ∃ g2, MidI c (onArrival c { s with resQ := rest, outstanding := s.outstanding - 1 } r) g2 (some r.idx) ∧
-      g2.h.take s.rcvdIdx = g.h.take s.rcvdIdx ∧ s.rcvdIdx ≤ r.idx ∧
+      g2.h.take s.rcvdIdx = g.h.take s.rcvdIdx ∧ s.rcvdIdx ≤ r.idx ∧ r.idx < s.sendIdx ∧
       g2.h[r.idx]? = some r.w ∧ ResOk c g2.h r.w ((g2.h.take r.idx).count r.w) r ∧
-      (g2.h.take r.idx).count r.w < g2.arr r.w := by
+      (g2.h.take r.idx).count r.w < g2.arr r.w ∧
+      LiveI c (onArrival c { s with resQ := rest, outstanding := s.outstanding - 1 } r) g2 := by
   have hn0 : s.rcvdIdx ≤ g.h.length := by rw [h.hlen]; have := h.len; omega
   unfold onArrival
   by_cases hn : r.kind = .notice
@@ -440,12 +574,12 @@ theorem onArrival_I (c : Cfg) (s : State) (g : Ghost) (r : Res) (rest : List Res
         s1.resQ = rest → s1.status = s.status.set r.w false →
         (s1.workers = s.workers ∨ s1.workers = pushMsg s.workers r.w .stop) →
         ∃ g2, MidI c (tryPut c s1) g2 (some r.idx) ∧
-          g2.h.take s.rcvdIdx = g.h.take s.rcvdIdx ∧ s.rcvdIdx ≤ r.idx ∧
+          g2.h.take s.rcvdIdx = g.h.take s.rcvdIdx ∧ s.rcvdIdx ≤ r.idx ∧ r.idx < s.sendIdx ∧
           g2.h[r.idx]? = some r.w ∧ ResOk c g2.h r.w ((g2.h.take r.idx).count r.w) r ∧
-          (g2.h.take r.idx).count r.w < g2.arr r.w := by
+          (g2.h.take r.idx).count r.w < g2.arr r.w ∧ LiveI c (tryPut c s1) g2 := by
       intro s1 e1 e2 e4 e5 eq est ewk
       obtain ⟨_, hok, hge, hlt, hm1⟩ := arrive_core c s s1 g r rest h hq e1 e2 e4 e5 eq (by simp [hn, est]) ewk
-      obtain ⟨g2, hm2, ha, _, hh⟩ := MidI_tryPut c s1 _ (some r.idx) hit hio hm1
+      obtain ⟨g2, hm2, ha, _, hh, hl2⟩ := MidI_tryPut c s1 _ (some r.idx) hit hio hm1
       obtain ⟨_, hx, hseq, hkind⟩ := hok
       have hlt' : r.idx < g.h.length := by rw [h.hlen]; exact hlt
       have htk : g2.h.take r.idx = g.h.take r.idx := take_of_prefix g.h g2.h _ (by omega) hh
@@ -453,7 +587,7 @@ theorem onArrival_I (c : Cfg) (s : State) (g : Ghost) (r : Res) (rest : List Res
         rcases hh with hh | ⟨v, hh⟩
         · rw [hh]; exact hx
         · rw [hh]; exact getElem?_snoc_of_some _ _ _ _ hx
-      refine ⟨g2, hm2, take_of_prefix g.h g2.h _ hn0 hh, hge, hx2, ?_, ?_⟩
+      refine ⟨g2, hm2, take_of_prefix g.h g2.h _ hn0 hh, hge, hlt, hx2, ?_, ?_, hl2⟩
       · rw [htk, hseq]
         rcases hh with hh | ⟨v, hh⟩
         · rw [hh]; exact ⟨rfl, hx, hseq, hkind⟩
@@ -467,30 +601,46 @@ theorem onArrival_I (c : Cfg) (s : State) (g : Ghost) (r : Res) (rest : List Res
       exact key _ rfl rfl rfl rfl rfl rfl (Or.inr rfl)
   · have hd : decide (r.kind = Kind.notice) = false := by simp [hn]
     simp only [hd, Bool.and_false, Bool.false_eq_true, if_false]
-    obtain ⟨_, hok, hge, hlt, hm1⟩ := arrive_core c s { s with resQ := rest, outstanding := s.outstanding - 1 } g r rest
+    obtain ⟨hu, hok, hge, hlt, hm1⟩ := arrive_core c s { s with resQ := rest, outstanding := s.outstanding - 1 } g r rest
       h hq rfl rfl rfl rfl rfl (by simp [hn]) (Or.inl rfl)
     obtain ⟨_, hx, hseq, hkind⟩ := hok
-    refine ⟨_, hm1, rfl, hge, hx, ⟨rfl, hx, rfl, ?_⟩, ?_⟩
+    obtain ⟨it, _, _, hjlt⟩ := kindAt_data c _ _ _ hkind hn
+    refine ⟨_, hm1, rfl, hge, hlt, hx, ⟨rfl, hx, rfl, ?_⟩, ?_, ?_⟩
     · simp only [hseq]; exact hkind
     · simp only [hseq, bump_self]; omega
+    · rintro ⟨v, hv, hvu⟩
+      have hvu' : up s v = true := hvu
+      obtain ⟨i, hi, w', hw', hc⟩ := hl ⟨v, hv, hvu'⟩
+      refine ⟨i, hi, w', hw', ?_⟩
+      rcases hc with hc | ⟨hc1, hc2⟩
+      · exact Or.inl hc
+      · right
+        refine ⟨hc1, ?_⟩
+        show bump g.arr r.w w' ≤ _
+        by_cases hw : w' = r.w
+        · subst hw; rw [bump_self]; omega
+        · rw [bump_ne _ _ _ hw]; exact hc2
 
-theorem recvData_invI (c : Cfg) (s : State) (g : Ghost) (r : Res) (rest : List Res) (hit : c.iterable = true)
+theorem recvData_invI (c : Cfg) (s : State) (g : Ghost) (r : Res) (rest : List Res) (hv : c.shards.length = c.W)
+    (hit : c.iterable = true)
     (hio : c.inOrder = true) (hW : WI c s g) (hsd : s.shutdown = false) (hph : ∀ k, s.phase ≠ .resuming k)
     (hq : s.resQ = r :: rest) : InvI c (recvData c { s with resQ := rest } r) := by
-  obtain ⟨hm, ho⟩ := hW
-  obtain ⟨g2, hm2, htk, hge, hx, hok, hlt⟩ := onArrival_I c s g r rest hit hio hm hq
+  obtain ⟨hm, ho, hl, hfin⟩ := hW
+  obtain ⟨g2, hm2, htk, hge, hlts, hx, hok, hlt, hl2⟩ := onArrival_I c s g r rest hit hio hm hl hq
+  have hns : Obs.stop ∉ s.obs := fun hst => by have := (hfin hst).1; omega
   obtain ⟨f1, f2, f3, f4⟩ := onArrival_frame c { s with resQ := rest, outstanding := s.outstanding - 1 } r
   unfold recvData
-  generalize onArrival c { s with resQ := rest, outstanding := s.outstanding - 1 } r = t at hm2 f1 f2 f3 f4
+  generalize onArrival c { s with resQ := rest, outstanding := s.outstanding - 1 } r = t at hm2 f1 f2 f3 f4 hl2
   simp only at f1 f2 f3 f4
   have hsdt : t.shutdown = false := by rw [f3]; exact hsd
   have hpht : ∀ k, t.phase ≠ .resuming k := by rw [f4]; exact hph
   have hot : ObsRel (dataItems c (g2.h.take t.rcvdIdx)) (taskObs t.obs) := by rw [f1, f2, htk]; exact ho
+  have hnst : Obs.stop ∉ t.obs := by rw [f2]; exact hns
   simp only [hio, Bool.not_true, Bool.false_eq_true, if_false]
   by_cases hidx : r.idx = t.rcvdIdx
   · simp only [hidx, ne_eq, not_true_eq_false, if_false]
     have hlen := hm2.len
-    have hlts : t.rcvdIdx < t.sendIdx := by
+    have hlts' : t.rcvdIdx < t.sendIdx := by
       rw [← hm2.hlen, ← hidx]; exact (List.getElem?_eq_some_iff.mp hx).1
     obtain ⟨e, l, hi⟩ : ∃ e l, t.info = e :: l := by
       cases hi : t.info with
@@ -505,9 +655,10 @@ theorem recvData_invI (c : Cfg) (s : State) (g : Ghost) (r : Res) (rest : List R
       have := hinfo.2.1; rw [← hidx, hx] at this; exact (Option.some.inj this).symm
     obtain ⟨hm3, _⟩ := MidI_pop c t g2 (some r.idx) e l hm2 (Or.inr (by rw [hidx])) hi
       (Or.inl (by rw [hew, ← hidx]; exact hlt))
-    have hD := dataItems_take_succ c g2.h t.rcvdIdx r.w (by rw [← hidx]; exact hx)
+    have hxt : g2.h[t.rcvdIdx]? = some r.w := by rw [← hidx]; exact hx
+    have hD := dataItems_take_succ c g2.h t.rcvdIdx r.w hxt
     obtain ⟨_, _, _, hkind⟩ := hok
-    rw [hidx] at hkind
+    rw [hidx] at hkind hlt
     by_cases hn : r.kind = .notice
     · simp only [hn, if_true]
       rw [hn] at hkind
@@ -515,15 +666,19 @@ theorem recvData_invI (c : Cfg) (s : State) (g : Ghost) (r : Res) (rest : List R
       have hnil : ((c.shards.getD r.w [])[(g2.h.take t.rcvdIdx).count r.w]?).toList = [] :=
         getElem?_none_toList _ _ (by unfold bOf at hj; omega)
       rw [hnil, List.append_nil] at hD
-      refine loop_invI c _ _ g2 hit hio ⟨MidI_of_eq c _ _ g2 none hm3 rfl rfl rfl rfl rfl rfl rfl, ?_⟩ hsdt hpht
-      simp only [hD]; exact hot
+      refine loop_invI c _ _ g2 hv hit hio ⟨MidI_of_eq c _ _ g2 none hm3 rfl rfl rfl rfl rfl rfl rfl, ?_, ?_, ?_⟩
+        hsdt hpht (by unfold loopFuel; simp only; omega)
+      · simp only [hD]; exact hot
+      · exact LiveI_pop c t _ g2 r.w hl2 rfl rfl hxt (by omega)
+      · intro hst; exact absurd hst hnst
     · simp only [hn, if_false]
       obtain ⟨it, hit', hk, _⟩ := kindAt_data c _ _ _ hkind hn
       rw [hit'] at hD
       simp only [Option.toList] at hD
-      exact procI c _ g2 r it _ hit hio hm3 hsdt hpht hD hot hk
+      exact procI c _ g2 r it _ hit hio hm3 hsdt hpht hD hot hk hnst
   · simp only [ne_eq, hidx, not_false_eq_true, if_true]
     have hm3 := MidI_store c t g2 r.idx r.w r hm2 hx hok rfl hlt
-    exact loop_invI c _ _ g2 hit hio ⟨hm3, hot⟩ hsdt hpht
+    exact loop_invI c _ _ g2 hv hit hio ⟨hm3, hot, LiveI_of_eq c t _ g2 hl2 rfl rfl,
+      fun hst => absurd hst hnst⟩ hsdt hpht (by unfold loopFuel; simp only; omega)
 
 end TDV.MP
